@@ -1897,6 +1897,280 @@ pub static C15: CliProp = CliProp {
     extra: None,
 };
 
+
+// ------------------------------------------------------------------------------------------
+// C20: an option means the same thing wherever it is written (enumeration)
+
+struct Carrier {
+    what: String,
+    case: CliCase,
+    expect: sl::Config,
+}
+
+fn base_case() -> CliCase {
+    let mut case = CliCase::default();
+    case.files.insert(".editorconfig".into(), b"root = true\n".to_vec());
+    case.files.insert("t.lua".into(), crate::cli::PROBE.as_bytes().to_vec());
+    case.argv = vec!["t.lua".into()];
+    case
+}
+
+fn case_variants(s: &str) -> Vec<String> {
+    let mut v = vec![s.to_string(), s.to_ascii_lowercase(), s.to_ascii_uppercase()];
+    v.dedup();
+    v
+}
+
+fn c20_carriers() -> Vec<Carrier> {
+    use crate::cfg::*;
+    let mut out: Vec<Carrier> = Vec::new();
+    let d = sl::Config::default();
+    let mut add = |what: String, toml: Option<String>, flags: Option<Vec<String>>, ec: Option<String>, expect: sl::Config| {
+        let mut case = base_case();
+        if let Some(t) = toml {
+            case.files.insert("stylua.toml".into(), t.into_bytes());
+        }
+        if let Some(f) = flags {
+            let mut argv = f;
+            argv.push("t.lua".into());
+            case.argv = argv;
+        }
+        if let Some(e) = ec {
+            case.files.insert(".editorconfig".into(), format!("root = true\n\n[*.lua]\n{e}\n").into_bytes());
+        }
+        out.push(Carrier { what, case, expect });
+    };
+    // one option at a time, through OptCfg for toml and flags
+    let mut single: Vec<(String, OptCfg)> = Vec::new();
+    for s in Syntax::ALL {
+        single.push((format!("syntax={}", s.name()), OptCfg { syntax: Some(s), ..OptCfg::default() }));
+    }
+    for w in [1usize, 20, 80, 120, 500] {
+        single.push((format!("column_width={w}"), OptCfg { column_width: Some(w), ..OptCfg::default() }));
+    }
+    for v in [Endings::Unix, Endings::Windows] {
+        single.push((format!("line_endings={v:?}"), OptCfg { line_endings: Some(v), ..OptCfg::default() }));
+    }
+    for v in [Indent::Tabs, Indent::Spaces] {
+        single.push((format!("indent_type={v:?}"), OptCfg { indent_type: Some(v), indent_width: Some(3), ..OptCfg::default() }));
+    }
+    for w in [1usize, 2, 3, 4, 8] {
+        single.push((format!("indent_width={w}"), OptCfg { indent_type: Some(Indent::Spaces), indent_width: Some(w), ..OptCfg::default() }));
+    }
+    for v in QUOTES {
+        single.push((format!("quote_style={v:?}"), OptCfg { quote_style: Some(v), ..OptCfg::default() }));
+    }
+    for v in CALLPARENS {
+        single.push((format!("call_parentheses={v:?}"), OptCfg { call_parentheses: Some(v), ..OptCfg::default() }));
+    }
+    for v in COLLAPSE {
+        single.push((format!("collapse_simple_statement={v:?}"), OptCfg { collapse: Some(v), ..OptCfg::default() }));
+    }
+    for v in SPACEAFTER {
+        single.push((format!("space_after_function_names={v:?}"), OptCfg { space_after: Some(v), ..OptCfg::default() }));
+    }
+    for v in [true, false] {
+        single.push((format!("sort_requires={v}"), OptCfg { sort_requires: Some(v), ..OptCfg::default() }));
+    }
+    for (what, o) in &single {
+        let expect = o.apply(d);
+        add(format!("{what} via stylua.toml"), Some(o.to_toml()), None, None, expect);
+        if o.sort_requires != Some(false) {
+            let flags = o.to_flags();
+            // canonical, lower and upper case spelling of every value
+            for variant in 0..3 {
+                let f: Vec<String> = flags
+                    .iter()
+                    .map(|a| {
+                        if a.starts_with("--") || a.chars().all(|c| c.is_ascii_digit()) {
+                            a.clone()
+                        } else {
+                            case_variants(a).get(variant).cloned().unwrap_or_else(|| a.clone())
+                        }
+                    })
+                    .collect();
+                add(format!("{what} via flags (case variant {variant})"), None, Some(f), None, expect);
+            }
+            // the flag next to a configuration file that does not mention the option (found file / forced file)
+            add(format!("{what} via flags over a found stylua.toml"), Some("indent_width = 4\n".to_string()), Some(o.to_flags()), None, expect);
+            let mut forced = vec!["--config-path".to_string(), "stylua.toml".to_string()];
+            forced.extend(o.to_flags());
+            add(format!("{what} via flags over --config-path"), Some("indent_width = 4\n".to_string()), Some(forced), None, expect);
+        }
+    }
+    // EditorConfig keys
+    let mut ec = |what: &str, text: &str, o: OptCfg| {
+        let expect = o.apply(d);
+        let mut case = base_case();
+        case.files.insert(".editorconfig".into(), format!("root = true\n\n[*.lua]\n{text}\n").into_bytes());
+        out.push(Carrier { what: format!("{what} via .editorconfig"), case, expect });
+    };
+    ec("indent_style=tab", "indent_style = tab", OptCfg { indent_type: Some(Indent::Tabs), ..OptCfg::default() });
+    ec("indent_style=space", "indent_style = space", OptCfg { indent_type: Some(Indent::Spaces), ..OptCfg::default() });
+    for w in [1usize, 2, 3, 8] {
+        ec(&format!("indent_size={w}"), &format!("indent_style = space\nindent_size = {w}"), OptCfg { indent_type: Some(Indent::Spaces), indent_width: Some(w), ..OptCfg::default() });
+        ec(&format!("tab_width={w}"), &format!("indent_style = space\nindent_size = tab\ntab_width = {w}"), OptCfg { indent_type: Some(Indent::Spaces), indent_width: Some(w), ..OptCfg::default() });
+    }
+    ec("end_of_line=lf", "end_of_line = lf", OptCfg { line_endings: Some(Endings::Unix), ..OptCfg::default() });
+    ec("end_of_line=crlf", "end_of_line = crlf", OptCfg { line_endings: Some(Endings::Windows), ..OptCfg::default() });
+    ec("end_of_line=cr", "end_of_line = cr", OptCfg { line_endings: Some(Endings::Unix), ..OptCfg::default() });
+    for w in [20usize, 80, 500] {
+        ec(&format!("max_line_length={w}"), &format!("max_line_length = {w}"), OptCfg { column_width: Some(w), ..OptCfg::default() });
+    }
+    ec("max_line_length=off", "max_line_length = off", OptCfg { column_width: Some(usize::MAX), ..OptCfg::default() });
+    ec("quote_type=single", "quote_type = single", OptCfg { quote_style: Some(Quotes::AutoPreferSingle), ..OptCfg::default() });
+    ec("quote_type=double", "quote_type = double", OptCfg { quote_style: Some(Quotes::AutoPreferDouble), ..OptCfg::default() });
+    ec("quote_type=auto", "quote_type = auto", OptCfg::default());
+    for v in [CallParens::Always, CallParens::NoSingleString, CallParens::NoSingleTable, CallParens::None] {
+        for text in case_variants(&format!("{v:?}")) {
+            ec(&format!("call_parentheses={text}"), &format!("call_parentheses = {text}"), OptCfg { call_parentheses: Some(v), ..OptCfg::default() });
+        }
+    }
+    for v in SPACEAFTER {
+        ec(&format!("space_after_function_names={v:?}"), &format!("space_after_function_names = {v:?}"), OptCfg { space_after: Some(v), ..OptCfg::default() });
+    }
+    for v in COLLAPSE {
+        ec(&format!("collapse_simple_statement={v:?}"), &format!("collapse_simple_statement = {v:?}"), OptCfg { collapse: Some(v), ..OptCfg::default() });
+    }
+    ec("sort_requires=true", "sort_requires = true", OptCfg { sort_requires: Some(true), ..OptCfg::default() });
+    ec("sort_requires=false", "sort_requires = false", OptCfg { sort_requires: Some(false), ..OptCfg::default() });
+    out
+}
+
+const MALFORMED: [(&str, &str); 30] = [
+    ("misspelt key column_width", "colum_width = 80\n"),
+    ("misspelt key line_endings", "line_ending = \"Unix\"\n"),
+    ("misspelt key indent_type", "indent_typ = \"Spaces\"\n"),
+    ("misspelt key indent_width", "indentwidth = 2\n"),
+    ("misspelt key quote_style", "quote_stlye = \"ForceSingle\"\n"),
+    ("misspelt key call_parentheses", "call_parenthesis = \"None\"\n"),
+    ("misspelt key collapse_simple_statement", "collapse_simple_statements = \"Always\"\n"),
+    ("misspelt key space_after_function_names", "space_after_function_name = \"Always\"\n"),
+    ("misspelt key syntax", "sintax = \"Lua51\"\n"),
+    ("misspelt key inside [sort_requires]", "[sort_requires]\nenable = true\n"),
+    ("unknown key inside [sort_requires]", "[sort_requires]\nenabled = true\nstable = true\n"),
+    ("misspelt table", "[sort_require]\nenabled = true\n"),
+    ("unknown table", "column_width = 80\n\n[unknown]\nkey = 1\n"),
+    ("wrong type: column_width string", "column_width = \"80\"\n"),
+    ("wrong type: indent_width float", "indent_width = 1.5\n"),
+    ("wrong type: indent_type number", "indent_type = 4\n"),
+    ("wrong type: quote_style boolean", "quote_style = true\n"),
+    ("wrong type: sort_requires.enabled string", "[sort_requires]\nenabled = \"yes\"\n"),
+    ("wrong type: sort_requires scalar", "sort_requires = true\n"),
+    ("negative column_width", "column_width = -1\n"),
+    ("wrong case: indent_type", "indent_type = \"spaces\"\n"),
+    ("wrong case: quote_style", "quote_style = \"forcesingle\"\n"),
+    ("wrong case: line_endings", "line_endings = \"WINDOWS\"\n"),
+    ("unknown value: call_parentheses", "call_parentheses = \"Sometimes\"\n"),
+    ("unknown value: collapse_simple_statement", "collapse_simple_statement = \"Functions\"\n"),
+    ("unknown value: syntax", "syntax = \"Lua55\"\n"),
+    ("duplicate key", "column_width = 80\ncolumn_width = 90\n"),
+    ("not TOML at all", "column_width: 80\n"),
+    ("upper-case key", "Column_Width = 80\n"),
+    ("valid key after an invalid one", "quote_style = \"ForceSingle\"\nnot_an_option = 1\n"),
+];
+
+fn c20_extra(rep: &mut crate::run::Reporter, stats: &mut crate::run::Stats, _tier: crate::run::Tier) {
+    let carriers = c20_carriers();
+    let results = crate::engine::par_map(&carriers, |_, c| {
+        let run = crate::cli::run_cli(&c.case);
+        (run, lib_format(crate::cli::PROBE, c.expect))
+    });
+    for (c, (run, want)) in carriers.iter().zip(results.into_iter()) {
+        stats.count("E2-carriers");
+        let run = match run {
+            Ok(r) => r,
+            Err(e) => {
+                stats.notes.push(format!("infrastructure: {e}"));
+                continue;
+            }
+        };
+        let Some(want) = want else {
+            stats.skip("the probe program does not format under this configuration");
+            stats.notes.push(format!("probe does not format: {}", c.what));
+            continue;
+        };
+        let got = run.after.get("t.lua").map(|f| f.bytes.clone()).unwrap_or_default();
+        if got != want.as_bytes() || run.code != Some(0) {
+            let detail = format!("{}: the file on disk is not the library's output for that option value (exit {:?}; stderr: {})", c.what, run.code, String::from_utf8_lossy(&run.stderr).lines().next().unwrap_or(""));
+            rep.violation(crate::clirun::replay_value("C20", &c.case, &detail, "E2-carriers", Some(&run)), "E2");
+        } else {
+            stats.nontrivial.insert(c.case.hash64());
+            stats.label(c.what.split(' ').nth(2).unwrap_or("?"));
+            if stats.samples.len() < 3 {
+                stats.samples.push(serde_json::json!({ "origin": "E2-carriers", "what": c.what, "argv": c.case.argv, "files": c.case.files.iter().filter(|(k, _)| k.as_str() != "t.lua").map(|(k, v)| (k.clone(), String::from_utf8_lossy(v).to_string())).collect::<BTreeMap<_, _>>() }));
+            }
+        }
+    }
+    // malformed configuration files: exit 2 and nothing modified; in the cwd file and through --config-path
+    let mut mal: Vec<(String, CliCase)> = Vec::new();
+    for (what, text) in MALFORMED {
+        for via in 0..3 {
+            let mut case = base_case();
+            case.files.insert("other.lua".into(), messy_program(3).into_bytes());
+            match via {
+                0 => {
+                    case.files.insert("stylua.toml".into(), text.as_bytes().to_vec());
+                    case.argv = vec![".".into()];
+                }
+                1 => {
+                    case.files.insert(".stylua.toml".into(), text.as_bytes().to_vec());
+                    case.argv = vec!["--check".into(), "t.lua".into(), "other.lua".into()];
+                }
+                _ => {
+                    case.files.insert("conf/my.toml".into(), text.as_bytes().to_vec());
+                    case.argv = vec!["--config-path".into(), "conf/my.toml".into(), "t.lua".into()];
+                }
+            }
+            mal.push((format!("{what} (carrier {via})"), case));
+        }
+    }
+    let results = crate::engine::par_map(&mal, |_, (_, case)| crate::cli::run_cli(case));
+    for ((what, case), run) in mal.iter().zip(results.into_iter()) {
+        stats.count("E2-malformed");
+        let run = match run {
+            Ok(r) => r,
+            Err(e) => {
+                stats.notes.push(format!("infrastructure: {e}"));
+                continue;
+            }
+        };
+        let problem = if run.code != Some(2) {
+            Some(format!("exit status {:?} instead of 2", run.code))
+        } else {
+            tree_unchanged(&run)
+        };
+        match problem {
+            Some(p) => {
+                let detail = format!("malformed configuration file accepted: {what}: {p}");
+                rep.violation(crate::clirun::replay_value("C20", case, &detail, "E2-malformed", Some(&run)), "E2");
+            }
+            None => {
+                stats.nontrivial.insert(case.hash64());
+                if stats.samples.len() < 5 {
+                    stats.samples.push(serde_json::json!({ "origin": "E2-malformed", "what": what, "argv": case.argv, "stderr": String::from_utf8_lossy(&run.stderr).lines().next() }));
+                }
+            }
+        }
+    }
+}
+
+fn gen_none_cli(_t: &mut Tape, _l: &mut Vec<&'static str>) -> Option<CliCase> {
+    None
+}
+
+pub static C20: CliProp = CliProp {
+    id: "C20",
+    rule: "E2 (seed independent, complete): every option x every documented value (7 syntaxes, 5 widths, 2 line endings, 2 indent types, 5 indent widths, 4 quote styles, 5 call-parentheses modes, 4 collapse modes, 4 space modes, sort_requires on/off) x every carrier: `stylua.toml`, the command-line flag in canonical / lower / upper case, and the `.editorconfig` key where one exists (indent_style, indent_size, tab_width, end_of_line incl. cr, max_line_length incl. off, quote_type incl. auto, call_parentheses in three spellings, space_after_function_names, collapse_simple_statement, sort_requires). Oracle: the probe program (its formatted text differs for every option value) written back by the tool equals the library's output for that Config, exit 0. Plus 30 malformed `stylua.toml` texts (each key misspelt, wrong types, wrong case, unknown values, unknown / misspelt tables and keys inside [sort_requires], duplicate key, non-TOML) through three carriers (stylua.toml, .stylua.toml, --config-path): exit status 2 and an unchanged tree snapshot. Non-trivial: every executed case.",
+    gen_case: gen_none_cli,
+    oracle: |_, _| Verdict::Skip("enumeration only"),
+    quick_cases: 0,
+    thorough_cases: 0,
+    tape_len: 8,
+    assumptions: &["a malformed file is the only configuration in play"],
+    extra: Some(c20_extra),
+};
+
 pub fn cli_prop(id: &str) -> Option<&'static CliProp> {
     match id {
         "C13" => Some(&C13),
@@ -1905,6 +2179,7 @@ pub fn cli_prop(id: &str) -> Option<&'static CliProp> {
         "C16" => Some(&C16),
         "C17" => Some(&C17),
         "C18" => Some(&C18),
+        "C20" => Some(&C20),
         _ => None,
     }
 }
